@@ -4,9 +4,12 @@
 From Coq Require Import List Bool String.
 From TS Require Import Model.Str Model.Outcome Model.Unicode Model.Syntax Model.Attrs Model.Types Model.Parse
                        Model.Reconcile Model.Collect Model.Lang.Common Model.Lang.Decl Model.Lang.Kotlin
+                       Model.Lang.Swift Model.Lang.Scala Model.Lang.Python Model.Lang.Go
                        Model.Rename Model.MultiFile.
 From TS Require Import Spec.C09Spec Spec.C09MultiSpec Spec.C09MultiLangSpec.
-From TS Require Import Proofs.C14 Proofs.C14Front Proofs.C14Witness Proofs.C09Multi Proofs.C09MultiWitness.
+From TS Require Import Proofs.C14 Proofs.C14Front Proofs.C14Witness Proofs.C09Multi Proofs.C09MultiWitness
+                       Proofs.C12MultiSwift Proofs.C12Multi Proofs.C12MultiGo.
+From TS Require Proofs.C09Witness.
 Import ListNotations.
 Local Open Scope string_scope.
 
@@ -114,3 +117,69 @@ Example emitted_generic_refuted :
           lit ")" ++ NL ++ NL)%list /\
   match wm_kt_text (lit "KP") ws_emitted_generic (lit "a") with Some t => contains_sub (lit "data class KPX2 (") t | None => false end = true.
 Proof. repeat split; vm_compute; reflexivity. Qed.
+
+(* ---------------------------------------------------------------- Swift, Scala, Python *)
+Definition wl_verdict (L : lang) (pfx : str) (arrivals : list (str * parsed)) (c : str) (ds : list decl) (from to : str) : nat * nat * bool * bool :=
+  let obs := c9m_observe_decls L ds in
+  (List.length (c9_defs obs), List.length (c9_refs obs), good_C09_multi L pfx arrivals c obs,
+   good_C09_multi L pfx arrivals c (wl_respell from to obs)).
+Definition wl_sw_cfg (pfx : str) : sw_config :=
+  {| sw_prefix := pfx; sw_type_mappings := []; sw_default_decorators := []; sw_default_generic_constraints := [];
+     sw_codablevoid_constraints := []; sw_no_version_header := true; sw_version := [] |}.
+(* (definitions, references, the judgement, the judgement after respelling `from` as `to`) of the file of crate c *)
+Definition wl_sw (pfx : str) (ws : list ws_entry) (c from to : str) : option (nat * nat * bool * bool) :=
+  match wl_crate ws c with
+  | Some (arrivals, pd) =>
+    match sw_generate_multi uc_exec (wl_sw_cfg pfx) false pd, sw_multi_decls uc_exec (wl_sw_cfg pfx) false pd with
+    | Ok _, Ok (ds, _) => Some (wl_verdict Swift pfx arrivals c (flat_map sw_obs ds) from to)
+    | _, _ => None
+    end
+  | None => None
+  end.
+Definition wl_sc (ws : list ws_entry) (c from to : str) : option (nat * nat * bool * bool) :=
+  match wl_crate ws c with
+  | Some (arrivals, pd) =>
+    match sc_generate uc_exec Proofs.C09Witness.w_sc pd, sc_file_decls uc_exec Proofs.C09Witness.w_sc pd with
+    | Ok _, Ok fd => Some (wl_verdict Scala [] arrivals c (fd_decls fd) from to)
+    | _, _ => None
+    end
+  | None => None
+  end.
+Definition wl_py (ws : list ws_entry) (c from to : str) : option (nat * nat * bool * bool) :=
+  match wl_crate ws c with
+  | Some (arrivals, pd) =>
+    match py_generate_multi uc_exec Proofs.C09Witness.w_py py_empty_state pd, py_multi_decls uc_exec Proofs.C09Witness.w_py py_empty_state pd with
+    | Ok _, Ok (ds, _) => Some (wl_verdict Python [] arrivals c (flat_map py_obs ds) from to)
+    | _, _ => None
+    end
+  | None => None
+  end.
+
+(* a/src/lib.rs: #[typeshare] #[serde(rename = "AlR")] type Al = u32;  my-crate/src/lib.rs: use a::Al; #[typeshare] struct B1 { f: Al }:
+   the own-crate findings about definitions carry over to folder mode - Kotlin and Scala declare the alias under its
+   RUST name while my_crate refers to (and imports) AlR *)
+Definition ws_alias_renamed : list ws_entry :=
+  [w_entry (lit "a") (w_file [IType [w_ts; w_rename (lit "AlR")] (lit "Al") [] (w_ty (lit "u32"))] (wl_paths ["typeshare"; "u32"; "serde"]));
+   w_b [w_use (lit "a") (lit "Al")] (lit "Al")].
+
+(* Swift (prefix OP), Scala, Python on ws_rich: in no class; the file of my_crate is good (5 definitions; 13 / 16 / 12
+   references), and the judgement rejects the Rust name of a's A2, a prefixed generic parameter (Swift), a misspelled
+   sealed parent (Scala) and a misnamed helper class (Python) *)
+Example sw_sc_py_multi_nonvacuous :
+  wl_dom Swift (lit "OP") ws_rich = Some (true, None) /\ wl_dom Scala [] ws_rich = Some (true, None) /\ wl_dom Python [] ws_rich = Some (true, None) /\
+  wl_sw (lit "OP") ws_rich MY (lit "OPA2Renamed") (lit "OPA2") = Some (5, 13, true, false)%nat /\
+  wl_sw (lit "OP") ws_rich MY (lit "T") (lit "OPT") = Some (5, 13, true, false)%nat /\
+  wl_sc ws_rich MY (lit "A2Renamed") (lit "A2") = Some (5, 16, true, false)%nat /\
+  wl_sc ws_rich MY (lit "E") (lit "E2") = Some (5, 16, true, false)%nat /\
+  wl_py ws_rich MY (lit "A2Renamed") (lit "A2") = Some (5, 12, true, false)%nat /\
+  wl_py ws_rich MY (lit "EVInner") (lit "EV") = Some (5, 12, true, false)%nat.
+Proof. repeat split; vm_compute; reflexivity. Qed.
+
+(* the own-crate classes of definitions in folder mode: a serde-renamed alias of crate a, referred to from my_crate *)
+Example alias_renamed_classes :
+  wl_dom Kotlin [] ws_alias_renamed = Some (true, Some "C09-kotlin-alias") /\
+  wl_dom Scala [] ws_alias_renamed = Some (true, Some "C09-scala-alias") /\
+  wl_dom Go [] ws_alias_renamed = Some (true, Some "C09-go-alias") /\
+  wl_dom Swift [] ws_alias_renamed = Some (true, None) /\ wl_dom Python [] ws_alias_renamed = Some (true, None).
+Proof. repeat split; vm_compute; reflexivity. Qed.
+
